@@ -134,4 +134,3 @@ func trimModel(m string) string {
 	}
 	return strings.Join(out, "\n")
 }
-
